@@ -24,6 +24,30 @@ def flow(fi: FunctionInfo, repo: Repo) -> Flow:
     return f
 
 
+def xnorm(fl: Flow, e: ast.AST, at=None) -> str:
+    """``norm`` of ``e`` with pure temporaries looked through (``Flow.inline``)."""
+    try:
+        return norm(fl.inline(e, at))
+    except Exception:
+        return norm(e)
+
+
+def xfn(fi: FunctionInfo, repo: Repo) -> str:
+    """Normalised text of a whole function with pure temporaries looked through."""
+    try:
+        return norm(flow(fi, repo).inlined_function())
+    except Exception:
+        return norm(fi.node)
+
+
+def xnames(fl: Flow, e: ast.AST, at=None) -> set[str]:
+    """Names read by ``e``, temporaries looked through."""
+    try:
+        return names_in(fl.inline(e, at))
+    except Exception:
+        return names_in(e)
+
+
 def attr_chain(e: ast.AST) -> list[str] | None:
     """``self._x.y`` -> ['self', '_x', 'y']; None if not a pure name/attribute chain."""
     out: list[str] = []
